@@ -183,6 +183,41 @@ func (px *pathCtx) check(extra *smt.Term, model bool) (smt.Result, map[string]ui
 	return r, m
 }
 
+// crossCheck re-decides an assertion query that the primary solver answered unsat with the
+// second solver (a sample in quick tier, all in thorough). A disagreement makes the check
+// inconclusive.
+func (px *pathCtx) crossCheck(extra *smt.Term, label string) {
+	e := px.eng
+	if e.FallbackSolver == "" || e.CrossEvery <= 0 {
+		return
+	}
+	px.w.assertSeq++
+	if e.CrossEvery > 1 && px.w.assertSeq%e.CrossEvery != 1 {
+		return
+	}
+	if px.w.fallback == nil {
+		fb, err := smt.NewSolver(e.FallbackSolver, e.QueryTimeoutMs)
+		if err != nil {
+			return
+		}
+		px.w.fallback = fb
+	}
+	fb := px.w.fallback
+	fb.Reset()
+	for _, c := range px.pc {
+		fb.Assert(c)
+	}
+	r, _ := fb.Check(extra, false)
+	px.w.crossChecked++
+	switch r {
+	case smt.Sat:
+		px.w.crossDisagree++
+		px.note("SOLVER DISAGREEMENT on assertion: " + label)
+	case smt.Unknown:
+		px.w.crossUnknown++
+	}
+}
+
 func (px *pathCtx) alt(d Decision) {
 	v := make([]Decision, len(px.trace)+1)
 	copy(v, px.trace)
@@ -442,6 +477,10 @@ type worker struct {
 	fallback        *smt.Solver
 	fallbackUsed    int
 	fallbackDecided int
+	assertSeq       int
+	crossChecked    int
+	crossDisagree   int
+	crossUnknown    int
 }
 
 // HarnessConfig controls exploration of one harness function.
@@ -475,6 +514,9 @@ type HarnessResult struct {
 	Wall        time.Duration
 	Truncated   bool
 	Fallback    int
+	CrossChecked  int
+	CrossDisagree int
+	CrossUnknown  int
 	Samples     []string
 	Incomplete  []string // messages of unwind/unsupported/internal paths
 	Asserts     int
@@ -590,6 +632,9 @@ func (e *Engine) Explore(cfg HarnessConfig) *HarnessResult {
 		res.QUnsat += w.solver.NUnsat
 		res.QUnknown += w.solver.NUnknown - w.fallbackDecided
 		res.Fallback += w.fallbackDecided
+		res.CrossChecked += w.crossChecked
+		res.CrossDisagree += w.crossDisagree
+		res.CrossUnknown += w.crossUnknown
 		if w.fallback != nil {
 			res.SolverTime += w.fallback.Time
 			w.fallback.Close()
